@@ -182,8 +182,12 @@ func sessionMain(args []string) {
 	crashAt, _ := strconv.Atoi(args[5])
 	say := func(f string, a ...any) { fmt.Printf(f+"\n", a...); os.Stdout.Sync() }
 	count, sealing := 0, ""
+	race := -1 // >= 0: a retention pass runs between the publication of the sealed fraction and active.Release()
+	var raceFn func()
 	verifhook.Set(func(name, s string, _ []int64) {
 		switch {
+		case name == "c07.pf.seal.wgdone" && race >= 0 && sealing == track:
+			raceFn()
 		case name == "seal.begin":
 			sealing = filepath.Base(s)
 		case name == "seal.end":
@@ -250,6 +254,25 @@ func sessionMain(args []string) {
 				}
 				fm.WaitIdle()
 			case "seal":
+				fm.SealForcedForTests()
+			case "sealrace":
+				// proxyFrac.Suicide (retention) wakes up when the sealed fraction is published, i.e. before proxyFrac.Seal
+				// reached active.Release(): run the retention pass at that point, then die (after the k-th file operation
+				// of the deletion, or - k = 0 - right after it finished, still before Release)
+				race, _ = strconv.Atoi(f[1])
+				raceFn = func() {
+					obs()
+					count = 0
+					if race > 0 {
+						crashAt = race
+					} else {
+						crashAt = 0
+					}
+					fracmanager.VerifC15ShrinkSizes(fm)
+					obs()
+					say("CRASH")
+					os.Exit(exitCrash)
+				}
 				fm.SealForcedForTests()
 			case "shrink":
 				fracmanager.VerifC15ShrinkSizes(fm)
@@ -447,6 +470,7 @@ func runHistory(work string, h history) (obs []string, finalServed string, died 
 		var ops []string
 		total := uint64(1 << 40)
 		crashAt := 0
+		selfCrash := false
 		j := i + 1
 		if first.crashAt > 0 {
 			crashAt = first.crashAt
@@ -461,6 +485,19 @@ func runHistory(work string, h history) (obs []string, finalServed string, died 
 				case "asuicide", "ssuicide", "suicide":
 					ops = append(ops, "shrink")
 					total = 1
+				case "sealpub": // followed by the suicide that races with the tail of the seal; the child does the crash itself
+					k := 0
+					if j+1 < len(h.steps) && h.steps[j+1].ev == "suicide" {
+						k = h.steps[j+1].crashAt
+						j++
+					}
+					ops = append(ops, fmt.Sprintf("sealrace:%d", k))
+					total = 1
+					j++
+					selfCrash = true
+				}
+				if selfCrash {
+					break
 				}
 				j++
 				if s.crashAt > 0 {
@@ -501,6 +538,9 @@ func runHistory(work string, h history) (obs []string, finalServed string, died 
 		}
 		nSteps := j - i
 		switch {
+		case code == exitCrash && len(sessObs) >= nSteps:
+			// the process died after the last step of the session had completed
+			obs = append(obs, sessObs[:nSteps]...)
 		case code == exitCrash:
 			// steps that completed before the crash were observed; the crashed one is observed from outside
 			done := len(sessObs)
@@ -600,7 +640,7 @@ func (h *harness) life(hist history) {
 // before it (the deletion has begun on disk), or -1.
 func effectiveDeletion(hist history, obs []string) int {
 	for i, s := range hist.steps {
-		if s.ev == "suicide" && i > 0 && i < len(obs) {
+		if s.ev == "suicide" && i > 0 && i < len(obs) && i < len(hist.steps) {
 			if listingOf(obs[i]) != listingOf(obs[i-1]) {
 				return i
 			}
@@ -675,6 +715,14 @@ func (h *harness) histories(skip, keep bool, n int, seed int64, full bool) []his
 		}
 	}
 	hs = append(hs, mk(st("new"), st("fill"), st("seal"), st("start"), st("suicide"), st("start")))
+	// retention reaches the fraction while proxyFrac.Seal has published the sealed form but not yet released the active
+	// files (proxyFrac.Suicide waits for sealWg, which is done before active.Release()); the process dies inside or right
+	// after the deletion
+	for k := 0; k <= 6; k++ {
+		if full || k == 0 || k == 3 || k == 5 {
+			hs = append(hs, mk(st("new"), st("fill"), st("sealpub"), at("suicide", k), st("start"), st("start")))
+		}
+	}
 	// crash inside the seal, restart, seal again, delete
 	for k := 1; k <= sealOps; k += 2 {
 		hs = append(hs, mk(st("new"), st("fill"), at("seal", k), st("start"), st("start")))
